@@ -18,14 +18,11 @@ REQUIRE = ["evaluations", "site:poly.fast_polynomial", "site:fpa.fast_polynomial
            "site:divmod", "site:taylorat", "site:derivative", "site:multiply", "site:add", "site:big-degree"]
 
 
-class QCtx:
-    """minimal arithmetic context over Fractions for the ctx-taking evaluators"""
+def QCtx():
+    """the package's own exact context (utils.FractionContext): the ctx-taking evaluators must run over rationals with it"""
+    from functional_algorithms import utils as fa_utils
 
-    def constant(self, v, like=None):
-        return F(v)
-
-    def reciprocal(self, x):
-        return 1 / x
+    return fa_utils.FractionContext()
 
 
 def direct(cs, x):
